@@ -474,12 +474,14 @@ func (t *tOps) newIterator(f *tFile, slice *util.Range, ro *opt.ReadOptions) ite
 // Removes table from persistent storage. It waits until
 // no one use the the table.
 func (t *tOps) remove(fd storage.FileDesc) {
+	verifTrace(t.s, "t:remove-req", fd.Num)
 	t.fileCache.Delete(0, uint64(fd.Num), func() {
 		if err := t.s.stor.Remove(fd); err != nil {
 			t.s.logf("table@remove removing @%d %q", fd.Num, err)
 		} else {
 			t.s.logf("table@remove removed @%d", fd.Num)
 		}
+		verifTrace(t.s, "t:removed", fd.Num)
 		if t.evictRemoved && t.blockCache != nil {
 			t.blockCache.EvictNS(uint64(fd.Num))
 		}
